@@ -85,6 +85,7 @@ OVERRIDES = dict(
     GRASSES_PRODUCTION_MULTIPLIER=[0.5, 2],
     kg_meat_per_large_animal=[150.0],
     chicken_head=[1000000],
+    meat_cattle_head=[20000000],
 )
 SUPPLY_FAMILIES = ("scenario", "ratio_stocks_untouched", "shutoff", "waste", "stored_food", "crop_disruption", "grasses",
                    "fish", "seasonality", "nutrition")
